@@ -31,7 +31,8 @@ def build_sort(sc, lead=0):
     n = sc["n"]
     val = np.array(sc["val"], dtype=np.float64)
     cfg = {"variables": {"initial_values": [0.0, 0.0]},
-           "realizations": {"weights": [float(w) for w in sc["cw"]], "realization_min_success": 1}}
+           # (when every realization fails the threshold is lowered to zero: it is the filter that has nothing to select)
+           "realizations": {"weights": [float(w) for w in sc["cw"]], "realization_min_success": 0 if all(sc["failed"]) else 1}}
     fl = _flavour(sc)
     opts = {"first": sc["first"], "last": sc["last"]}
     if fl == "multi":
